@@ -9,7 +9,7 @@ Ops: `failat k` / `failfrom k` / `failoff` (allocation schedule; requests above 
 `ea_init nrec reclen seed`, `ea_resize nrec reclen seed`, `ea_append nrec reclen seed`, `ea_shrink nrec reclen`,
 `ea_trunc`, `ea_get pos reclen`, `ea_set pos reclen seed`, `ea_getsize reclen`, `ea_dump`, `ea_dup reclen`,
 `ea_export reclen`, `ea_free`, `eq_init reclen`, `eq_add seed`, `eq_del`, `eq_len`, `eq_get pos`, `eq_set pos seed`,
-`eq_dump`, `eq_free`, `sm_init`, `sm_add ptr`, `sm_get i`, `sm_del i`, `sm_min`, `sm_free`, `mp_init size`
+`eq_dump`, `eq_free`, `sm_init`, `sm_add ptr`, `sm_get i`, `sm_del i`, `sm_min`, `sm_free`, `mp_init size`, `mp_use size`
 (pool of cache size 1..4; 4 when a case starts), `mp_malloc`,
 `mp_free id`, `mp_freenth j`, `mp_exit`, `end`.
 -/
@@ -50,6 +50,7 @@ def parseOp : List String → Option Op
   | ["sm_min"] => some .smMin
   | ["sm_free"] => some .smFree
   | ["mp_init", k] => do pure (.mpInit (← k.toNat?))
+  | ["mp_use", k] => do pure (.mpUse (← k.toNat?))
   | ["mp_malloc"] => some .mpMalloc
   | ["mp_free", id] => do pure (.mpFree (← id.toNat?))
   | ["mp_freenth", j] => do pure (.mpFreenth (← j.toNat?))
